@@ -154,6 +154,8 @@ def simplify_plan(plan, test):
 
 
 def shrink_single(exe, plan, cls, budget=300):
+    if os.environ.get("VERIF_FAST_TRIAGE"):      # regression runs over the archive only ask "is it caught": no minimisation
+        return plan, 0
     def test_ops(ops):
         q = dict(plan); q["ops"] = ops
         r = exec_plans(exe, [q])
@@ -169,6 +171,8 @@ def shrink_single(exe, plan, cls, budget=300):
 
 def shrink_sequence(exe, plans, cls, budget=300):
     """violation needs earlier plans executed in the same process"""
+    if os.environ.get("VERIF_FAST_TRIAGE"):
+        return plans, 0
     last = plans[-1]
 
     def test_prefix(pre):
